@@ -176,11 +176,13 @@ fn run_workload(prelude: &[Op], workload: &[Op], start_idx: Idx, backend: Backen
         }
         if faults {
             let first_fault = if creation || !prelude.is_empty() { 0 } else { rec.ops.first().map(|r| r.att_start).unwrap_or(0) };
-            for i in first_fault..(rec.attempts - rec.prelude_attempts) {
+            for (i, answer) in (first_fault..(rec.attempts - rec.prelude_attempts)).flat_map(|i| [(i, vcore::ctlstore::Answer::ErrAfter), (i, vcore::ctlstore::Answer::ErrBefore)]) {
+                crash::FAULT_ANSWER.with(|a| a.set(answer));
                 let frec = crash::record_with_prelude(prelude, workload, start_idx, backend, Some(i)).await;
+                crash::FAULT_ANSWER.with(|a| a.set(vcore::ctlstore::Answer::ErrAfter));
                 t.fault_runs += 1;
                 let exp = crash::expectation_after_fault(&frec, frec.prelude_attempts + i);
-                let ctx = json!({"workload": workload, "prelude": prelude, "start_idx": start_idx, "backend": backend, "ambiguous_failure_at_mutation": i,
+                let ctx = json!({"workload": workload, "prelude": prelude, "start_idx": start_idx, "fault_answer": format!("{answer:?}"), "backend": backend, "ambiguous_failure_at_mutation": i,
                                  "outcomes": frec.ops.iter().map(|r| r.out.short()).collect::<Vec<_>>()});
                 check_crash_state(&frec.final_content, &exp, backend, false, shared, &mut t, &ctx).await;
             }
@@ -198,6 +200,9 @@ fn replay(run: &mut Run, ctx: &serde_json::Value, property: &str) {
     let prelude: Vec<Op> = ctx.get("prelude").and_then(|v| serde_json::from_value(v.clone()).ok()).unwrap_or_default();
     util::block_on(async {
         if let Some(i) = ctx.get("ambiguous_failure_at_mutation").and_then(|v| v.as_u64()) {
+            if ctx.get("fault_answer").and_then(|v| v.as_str()) == Some("ErrBefore") {
+                crash::FAULT_ANSWER.with(|a| a.set(vcore::ctlstore::Answer::ErrBefore));
+            }
             let frec = crash::record_with_prelude(&prelude, &workload, start_idx, backend, Some(i)).await;
             let exp = crash::expectation_after_fault(&frec, frec.prelude_attempts + i);
             check_crash_state(&frec.final_content, &exp, backend, false, &shared, &mut t, ctx).await;
@@ -252,7 +257,7 @@ fn main() {
     let deadline = Instant::now() + Duration::from_secs_f64(run.budget_s);
     let threads = util::n_threads();
     let shared = Shared { seen: Mutex::new(HashSet::new()) };
-    let starts = [if c04 { Idx { age_opt: true, emb: false, ..Idx::ALL } } else { Idx::ALL }];
+    let starts = [if c04 { Idx { age_opt: true, opt_opt2: true, emb: false, ..Idx::ALL } } else { Idx::ALL }];
     // (backend, depth, alphabet size, nested crashes during recovery)
     let plan: Vec<(Backend, usize, usize, bool)> = if c04 {
         run.tier.pick(
@@ -351,7 +356,7 @@ fn main() {
         let f2_ops: Vec<Op> = if c04 {
             vec![Op::Remove(1), Op::Add(2), Op::Update(1, 1), Op::Update(2, 6), Op::Update(1, 13), Op::Add(4), Op::Update(2, 12), Op::Flush, Op::Update(1, 0)]
         } else {
-            vec![Op::Remove(1), Op::Add(2), Op::Update(1, 0), Op::Update(2, 8), Op::Flush, Op::Remove(2), Op::Add(3), Op::Update(1, 5)]
+            vec![Op::Remove(1), Op::Add(2), Op::Update(1, 0), Op::Update(2, 8), Op::Flush, Op::Remove(2), Op::Add(3), Op::Update(1, 5), Op::SaveExt(1), Op::RemoveExt]
         };
         start_states.push(("flushed2", vec![Op::Add(0), Op::Add(1), Op::Flush], f2_ops, run.tier.pick(2, 3)));
         if !c04 {
@@ -414,7 +419,7 @@ fn main() {
     let nt = run.get("nontrivial_states");
     run.set("distinct_nontrivial", json!(nt));
     run.set("completed", json!(completed));
-    run.rule("workloads = every op sequence to the depth bound over the alphabet {add, rejected add, update, remove, flush, save_extension, compact, clean reopen, index create/remove via reopen}; for each: every journal prefix k (crash after the k-th backend mutation) -> recover -> acknowledgement model + full index comparison + continuation (add, flush, clean reopen) -> every strict prefix of the recovery's own mutations -> recover again; plus one ambiguous failure (write landed, error returned) at every mutation of every workload up to the stated depth; recoveries are deduplicated by (store content, expectation, backend), so every evaluation is a distinct crash state; non-trivial = the acknowledgement model holds at least one document (i.e. not a crash inside collection creation)");
+    run.rule("workloads = every op sequence to the depth bound over the alphabet {add, rejected add, update, remove, flush, save_extension, compact, clean reopen, index create/remove via reopen}; for each: every journal prefix k (crash after the k-th backend mutation) -> recover -> acknowledgement model + full index comparison + continuation (add, flush, clean reopen) -> every strict prefix of the recovery's own mutations -> recover again; plus one failed backend mutation - both answers: the write landed but an error was returned, and nothing landed and an error was returned - at every mutation of every workload up to the stated depth, with the workload continuing on the same handle; recoveries are deduplicated by (store content, expectation, backend), so every evaluation is a distinct crash state; non-trivial = the acknowledgement model holds at least one document (i.e. not a crash inside collection creation)");
     run.assume("crash model: each backend mutation is atomic, a sequence stops anywhere (the repo's own FaultStore model); concurrent sub-writes of one flush are explored in the one order the deterministic executor produces");
     run.finish();
 }
